@@ -175,12 +175,34 @@ def run(ctx):
     load(ctx)
     ctx.engines.append('M (MIR symbolic execution -> Z3)')
     ctx.bounds = {'programs': '`x OP lit` and `not (x OP lit)`, OP in %s, lit in %s (payload symbolic)' % (OPS, LITS), 'events': 'x missing or %s with symbolic payload' % XCLS,
-                  'outside': 'and/or of comparisons (the translation and both evaluators are compositional there, claimed only in thorough), filters with calls or cross-alias references (Predicate::CompareRef / Predicate::Expr), string ordering beyond "one total order shared by both sides"'}
+                  'composite': '`(x > l1) AND/OR (y == l2)` and its negation over two fields, each missing / Null / Int (symbolic payloads and literals)',
+                  'outside': 'deeper boolean nesting, three fields, filters with calls or cross-alias references (Predicate::CompareRef / Predicate::Expr), string ordering beyond "one total order shared by both sides"'}
     ctx.assumptions += ['bindings empty; Event::get returns the symbolic field on both sides', 'strings are identity tokens ordered by one uninterpreted total order']
     tasks = [(neg, op, xc, lc) for neg in (False, True) for op in OPS for xc in XCLS + ['missing'] for lc in LITS]
+    from props import c09b
     with ProcessPoolExecutor(max_workers=14, mp_context=mp.get_context('fork')) as pool:
         res = list(pool.map(_worker, tasks))
+        res2 = list(pool.map(c09b._worker, c09b.TASKS))
     binp = None; seen = set()
+    # composite filters over two fields: (x > l1) AND/OR (y == l2), optionally negated
+    for r in res2:
+        tgt = 'where-filter vs step-filter (composite)'
+        cls = '%s(x > l1) %s (y == l2) x:%s y:%s' % ('not ' if r['neg'] else '', r['bop'].lower(), r['xcls'], r['ycls'])
+        if r.get('error'):
+            ctx.inconclusive.append('%s (%s): %s' % (tgt, cls, r['error'])); continue
+        for why in sorted(set(r['inconclusive'])): ctx.inconclusive.append('%s (%s): %s' % (tgt, cls, why))
+        ctx.queries += r['queries']; ctx.solver_s += r['solver_s']
+        ctx.add_obligations(tgt, r['verdicts'], cls=cls)
+        ctx.samples.append({'class': cls, 'path_pairs': r['paths']})
+        for v in r['verdicts']:
+            if v['status'] != 'violated': continue
+            key = 'filter2:%s%s:x=%s:y=%s:%s' % ('not:' if r['neg'] else '', r['bop'], r['xcls'], r['ycls'], v['dir'])
+            if key in seen: continue
+            seen.add(key)
+            w = v.get('witness') or {}
+            if binp is None: binp = replay.build('rt')
+            a = [binp, 'filter2', '1' if r['neg'] else '0', r['bop']] + (w.get('x') or [r['xcls'], '-']) + (w.get('y') or [r['ycls'], '-']) + [str(w.get('l1', 0)), str(w.get('l2', 0))]
+            ctx.findings.append(Finding(key, '%s: %s (witness %s)' % (cls, v['name'], w), a, w))
     for r in res:
         tgt = 'where-filter vs step-filter'
         cls = '%s%s x:%s lit:%s' % ('not ' if r['neg'] else '', r['op'], r['xcls'], r['lcls'])
